@@ -13,6 +13,8 @@ inductive Outcome (α : Type) where
   | ok (v : α)
   | none
   | panic
+  /-- the Rust code does not terminate on this input (e.g. a cyclic parent chain) -/
+  | diverges
   | unmodelled
   deriving Repr, DecidableEq
 
